@@ -397,12 +397,14 @@ MANIFEST_TEXT = {
                    "consumption counts against every cap on its path); a tick answers or keeps every waiting request (none twice, none lost); "
                    "closed limiters stay closed, Close marks its limiter, the root's Close fails every pending request; and for the Close / "
                    "ticker hand-shake as now coded no schedule reaches a stuck state and completion always remains possible (72-state system "
-                   "enumerated by the kernel; the pre-repair order has a reachable deadlock, kept as a refutation lemma). Coq theorems. The "
+                   "enumerated by the kernel; the pre-repair order has a reachable deadlock, kept as a refutation lemma); LastUsed: the kids lists form a tree in every reachable state, the ticker's reset rewrites exactly "
+                   "the subtree (each node once) and reaches every attached limiter, so at every tick LastUsed of every limiter becomes the amount "
+                   "charged to it (own and descendants' grants) in the period that ended. Coq theorems. The "
                    "sequential model is compared with the real limiter driven in real time; Close under a continuously firing ticker is "
                    "sampled with deadlines.",
         level_note="Partial: atomicity of the operations rests on the RWMutex (trusted, sampled under -race); wall-clock behaviour of time.Ticker "
-                   "cannot be exhibited by the model; LastUsed = period sum and per-period caps are checked by the driver's oracle on the "
-                   "implementation's answers, the invariant used <= capacity is the proved part of it.",
+                   "cannot be exhibited by the model; the per-period sums are also re-computed by the driver's oracle on the "
+                   "implementation's answers.",
         technique="Coq proof (state-machine invariant by induction over histories; finite-state enumeration lifted to all schedules) on a hand-written Gallina model + real-time differential correspondence check"),
     "C12": dict(
         level_text="Proof: for every history of writes (any sizes, also above MaxSize), closes, syncs and implicit re-opens, every configuration "
